@@ -171,6 +171,30 @@ def run(chk, tier):
         common.write_ndjson(cp, [dict(p, id="c%d" % i) for i, p in enumerate(progs_from(rc))])
         out = common.vh(["interp17", "--in", cp], binname=BIN)[-1]
         chk.canary("spec mutant %s exposed by the interpreter comparison" % can, len(out["mismatches"]) > 0)
+    # ---- witness-generation work list: model (all graphs x provided sets x pre-sets x schedules) and replay
+    for cfgname, name in ([("WitnessGen_2", "WitnessGen: all graphs of <= 2 generators, all round orders")]
+                          + ([("WitnessGen_3", "WitnessGen: all graphs of <= 3 generators, all round orders")] if thorough else [])):
+        rw = common.tlc("WitnessGen", cfg=cfgname, workers=6, timeout=2400, tag=cfgname)
+        if not rw.ok:
+            raise ToolError("spec WitnessGen violates %s" % rw.violated)
+        chk.add_tlc(name, rw)
+        wsc = sorted({json.dumps(x, sort_keys=True) for x in common.tagged(rw.prints, "WGEN")})
+        wp = os.path.join(common.OUT, "c01_%s.ndjson" % cfgname)
+        with open(wp, "w") as f:
+            f.write("\n".join(wsc) + "\n")
+        wo = common.vh(["wgen", "--in", wp], binname=BIN, env={"RAYON_NUM_THREADS": "3"}, timeout=3000)[-1]
+        chk.evaluations += wo["scenarios"]
+        chk.traces += wo["scenarios"] - len(wo["mismatches"])
+        chk.extra["witness_generation_scenarios"] = chk.extra.get("witness_generation_scenarios", 0) + wo["scenarios"]
+        chk.extra["witness_generation_outcomes"] = wo["outcomes"]
+        for m in wo["mismatches"]:
+            sc = m["scenario"]
+            chk.violation("C01/witness-generation/%s/%s" % (sc["expected"], json.dumps(sc["gens"])),
+                          "generate_partial_witness returned %s, the work-list specification expects %s" % (m["observed"], sc["expected"]),
+                          {"wgen_scenario": sc, "observed": m["observed"], "expected": sc["expected"]})
+    for can in ("requeue", "conflict"):
+        rc = common.tlc("WitnessGen", cfg="WitnessGen_canary_" + can, workers=2, timeout=600, tag="wgcan" + can)
+        chk.canary("WitnessGen mutant %s violates OutcomeAsExpected (TLC counterexample)" % can, rc.violated is not None)
     # ---- B1: interpreter == spec on F_17
     allp = p1 + p2 + psim
     ip = os.path.join(common.OUT, "c01_interp.ndjson")
@@ -212,6 +236,12 @@ def run(chk, tier):
 
 def replay(path):
     p = json.load(open(path))
+    if "wgen_scenario" in p:
+        fp = os.path.join(common.OUT, "c01_replay_wgen.ndjson")
+        common.write_ndjson(fp, [p["wgen_scenario"]])
+        wo = common.vh(["wgen", "--in", fp], binname=BIN)[-1]
+        print("expected:", p["expected"], "| re-run:", json.dumps(wo)[:600])
+        return 1 if wo["mismatches"] else 0
     s = p["scenario"]
     fp = os.path.join(common.OUT, "c01_replay.ndjson")
     common.write_ndjson(fp, [s])
